@@ -89,7 +89,7 @@ def make_config(source: Path | str, out: Path | None, *, meta: str = "none", cfg
     return Config.from_sources(cf, MetaType(meta), source, encoding, overwrite, output_path=out)
 
 
-def write_doc(doc: Any, *, as_yaml: bool = False, raw: bytes | None = None, suffix: str | None = None) -> str:
+def write_doc(doc: Any, *, as_yaml: bool = False, raw: bytes | None = None, suffix: str | None = None, raw_unicode: bool = False) -> str:
     d = env.fresh_dir("src")
     if raw is not None:
         p = os.path.join(d, "openapi" + (suffix or ".json"))
@@ -108,7 +108,7 @@ def write_doc(doc: Any, *, as_yaml: bool = False, raw: bytes | None = None, suff
         return p
     p = os.path.join(d, "openapi" + (suffix or ".json"))
     with open(p, "w", encoding="utf-8") as f:
-        json.dump(doc, f)
+        json.dump(doc, f, ensure_ascii=not raw_unicode)   # raw_unicode: non-ASCII text as UTF-8 bytes, not as \u escapes
     return p
 
 
